@@ -395,6 +395,32 @@ Proof.
   apply relocate_nth_error; try assumption; [apply (wf_naxes t Hwf)|apply (wf_pos t Hwf)|apply (wf_coeffs t Hwf)].
 Qed.
 
+(* the statement of coeff_relocated pins the new array down completely: a list of the right length that holds, for every
+   multi-index m, the old value of m at the permuted position IS the model's new coefficient array. (So judging an
+   implementation's output by that statement is the same as comparing it with the model's output — used for tables too large
+   for the literal list model to be run.) *)
+Lemma coeff_determined : forall junk (l : list C), length l = length (t_coeffs t) ->
+  (forall m, in_shape sh m ->
+     nth_error l (Z.to_nat (flat (pick p sh 1) (pick p m 0))) = nth_error (t_coeffs t) (Z.to_nat (flat sh m))) ->
+  l = t_coeffs (permute junk t p).
+Proof.
+  intros junk l Hl Hst. unfold permute. rewrite body_coeffs.
+  pose proof (wf_naxes t Hwf) as Hsh. pose proof (wf_pos t Hwf) as Hpos. pose proof (wf_coeffs t Hwf) as Hco.
+  fold sh in Hsh, Hpos, Hco. fold n in Hsh.
+  apply (relocate_determined C p sh n Hp Hsh Hpos junk (t_coeffs t) Hco l); [rewrite Hl; exact Hco|].
+  intros k Hk.
+  pose proof (k_bounds sh n Hsh Hpos k Hk) as Hkb.
+  pose proof (unflat_in_shape sh (Z.of_nat k) Hpos) as Hm.
+  specialize (Hst _ Hm).
+  rewrite (flat_unflat sh (Z.of_nat k) Hpos Hkb), Nat2Z.id in Hst.
+  rewrite (f_eq p sh n Hp Hsh Hpos k Hk).
+  assert (Hfk : (Z.to_nat (flat (pick p sh 1%Z) (pick p (unflat sh (Z.of_nat k)) 0%Z)) < length l)%nat).
+  { apply nth_error_Some. rewrite Hst. apply nth_error_Some. rewrite Hco. exact Hk. }
+  rewrite (nth_error_nth' l junk Hfk) in Hst.
+  rewrite (nth_error_nth' (t_coeffs t) junk) in Hst by (rewrite Hco; exact Hk).
+  inversion Hst as [Heq]. reflexivity.
+Qed.
+
 Lemma coeff_Permutation : forall junk, Permutation (t_coeffs t) (t_coeffs (permute junk t p)).
 Proof.
   intros junk. unfold permute. rewrite body_coeffs.
@@ -747,6 +773,16 @@ Lemma thm_coeff_relocated : forall m, in_shape (t_naxes t) m ->
 Proof.
   intros m Hm. unfold t', permute_checked. rewrite (checked_accepts K E C t true junk p Hp). cbn [snd].
   exact (coeff_relocated K E C t Hwf pn Hp junk m Hm).
+Qed.
+
+Lemma thm_coeff_determined : forall l : list C, length l = length (t_coeffs t) ->
+  (forall m, in_shape (t_naxes t) m ->
+     nth_error l (Z.to_nat (flat (t_naxes t') (pick pn m 0))) = nth_error (t_coeffs t) (Z.to_nat (flat (t_naxes t) m))) ->
+  l = t_coeffs t'.
+Proof.
+  intros l Hl Hst. unfold t', permute_checked in *. rewrite (checked_accepts K E C t true junk p Hp) in *. cbn [snd] in *.
+  apply (coeff_determined K E C t Hwf pn Hp junk l Hl).
+  intros m Hm. specialize (Hst m Hm). unfold permute in Hst. rewrite (body_naxes K E C t Hwf pn Hp) in Hst. exact Hst.
 Qed.
 
 Lemma thm_coeff_permutation : Permutation (t_coeffs t) (t_coeffs t').
